@@ -12,6 +12,7 @@ import (
 	"time"
 
 	sdkmath "cosmossdk.io/math"
+	simappparams "cosmossdk.io/simapp/params"
 	abci "github.com/cometbft/cometbft/abci/types"
 	tmed "github.com/cometbft/cometbft/crypto/ed25519"
 	"github.com/cometbft/cometbft/libs/log"
@@ -22,7 +23,6 @@ import (
 	sdked "github.com/cosmos/cosmos-sdk/crypto/keys/ed25519"
 	pruningtypes "github.com/cosmos/cosmos-sdk/store/pruning/types"
 	"github.com/cosmos/cosmos-sdk/store/rootmulti"
-	simappparams "cosmossdk.io/simapp/params"
 	simtestutil "github.com/cosmos/cosmos-sdk/testutil/sims"
 	sdk "github.com/cosmos/cosmos-sdk/types"
 	authtypes "github.com/cosmos/cosmos-sdk/x/auth/types"
@@ -182,14 +182,15 @@ type TxResult struct {
 
 // World is the whole simulated system of one run.
 type World struct {
-	Cfg    Config
-	Enc    simappparams.EncodingConfig
-	Reps   []*Replica
-	Accts  []*Account
-	Vals   []*Validator
-	Height int64
-	Now    time.Time
-	Header tmproto.Header
+	Cfg      Config
+	Enc      simappparams.EncodingConfig
+	Reps     []*Replica
+	Accts    []*Account
+	Vals     []*Validator
+	Height   int64
+	Now      time.Time
+	PrevTime time.Time // time of the last committed block
+	Header   tmproto.Header
 
 	// consensus stub: validator set model. valPower maps hex(pubkey) to power.
 	curVals  map[string]int64 // set that signs the block currently open
@@ -202,6 +203,7 @@ type World struct {
 	BlockReq   abci.RequestBeginBlock
 	LastResult TxResult
 	InBlock    bool
+	LastEndEvents []abci.Event // events of the last EndBlock (replica 0)
 	BlockLog   []LoggedBlock // block store: index i holds height i+1
 	KeepLog    bool
 	// OnBoundary is called between Commit of block H and BeginBlock of H+1.
@@ -541,6 +543,7 @@ func (w *World) beginBlock(dt time.Duration, f BlockFaults) error {
 		dt = time.Millisecond
 	}
 	w.Height++
+	w.PrevTime = w.Now
 	w.Now = w.Now.Add(dt)
 	absent := map[int]bool{}
 	for _, a := range f.Absent {
@@ -575,6 +578,9 @@ func (w *World) beginBlock(dt time.Duration, f BlockFaults) error {
 			continue
 		}
 		v := w.Vals[e.Val]
+		if w.curVals[hex.EncodeToString(v.PubKey)] <= 0 {
+			continue // CometBFT only produces evidence against validators with voting power
+		}
 		evs = append(evs, abci.Misbehavior{
 			Type:             abci.MisbehaviorType_DUPLICATE_VOTE,
 			Validator:        abci.Validator{Address: v.ConsAddr, Power: w.curVals[hex.EncodeToString(v.PubKey)]},
@@ -744,6 +750,7 @@ func (w *World) EndBlock() ([]byte, error) {
 			}
 		}
 	}
+	w.LastEndEvents = firstEB.Events
 	// validator-set model: updates returned at H take effect at H+2
 	w.curVals = w.nextVals
 	w.nextVals = w.pendVals
